@@ -17,6 +17,10 @@
 //!       `stream(rng, idx, max_size)` = the mixed stream used by the C01-C03 run.
 //! * data-updating stream: `DataUpdate`, `gen_update_case`, `apply_update`, `run_update` (first solve,
 //!       update_P/q/A/b in place, re-solve; judged against the data after the update), `collect(&solver)`
+//! * update sequences on one solver object: `run_updates`, `apply_updates`, `gen_transition_case`
+//!       (feasible -> infeasible, infeasible -> feasible -> infeasible, ... via update_b / update_q / update_A)
+//! * `gen_infbound_case` — presolve on, right-hand sides of both signs around the infinity bound
+//!       (default and lowered with set_infinity; `Settings::infbound` carries the bound of the case)
 //! * `keep_rows(problem)`        the rows an independent party regards as kept (not infinite bounds)
 //! * `run(problem, watchdog_s) -> Outcome`   solve under catch_unwind with a watchdog thread;
 //!       `Outcome` has status, x, s, z, obj_val, obj_val_dual, r_prim, r_dual, iterations, the
@@ -212,6 +216,9 @@ pub struct Settings {
     pub reduced_tol_ktratio: f64,
     pub max_iter: u32,
     pub time_limit: f64,
+    /// the process-global "infinity" bound in force for this solve (clarabel::set_infinity); the
+    /// runner sets it before building the solver and restores the default afterwards (runs are serial)
+    pub infbound: f64,
 }
 impl Default for Settings {
     fn default() -> Self {
@@ -221,7 +228,7 @@ impl Default for Settings {
             tol_gap_abs: 1e-8, tol_gap_rel: 1e-8, tol_feas: 1e-8, tol_infeas_abs: 1e-8, tol_infeas_rel: 1e-8, tol_ktratio: 1e-6,
             reduced_tol_gap_abs: 5e-5, reduced_tol_gap_rel: 5e-5, reduced_tol_feas: 1e-4,
             reduced_tol_infeas_abs: 5e-12, reduced_tol_infeas_rel: 5e-5, reduced_tol_ktratio: 1e-4,
-            max_iter: 200, time_limit: f64::INFINITY,
+            max_iter: 200, time_limit: f64::INFINITY, infbound: 1e20,
         }
     }
 }
@@ -261,7 +268,7 @@ impl Settings {
                "reduced_tol_gap_abs": self.reduced_tol_gap_abs, "reduced_tol_gap_rel": self.reduced_tol_gap_rel,
                "reduced_tol_feas": self.reduced_tol_feas, "reduced_tol_infeas_abs": self.reduced_tol_infeas_abs,
                "reduced_tol_infeas_rel": self.reduced_tol_infeas_rel, "reduced_tol_ktratio": self.reduced_tol_ktratio,
-               "max_iter": self.max_iter,
+               "max_iter": self.max_iter, "infbound": self.infbound,
                "time_limit": if self.time_limit.is_finite() { json!(self.time_limit) } else { json!("inf") }})
     }
     pub fn from_json(v: &Value) -> Settings {
@@ -276,6 +283,7 @@ impl Settings {
             reduced_tol_feas: f("reduced_tol_feas"), reduced_tol_infeas_abs: f("reduced_tol_infeas_abs"),
             reduced_tol_infeas_rel: f("reduced_tol_infeas_rel"), reduced_tol_ktratio: f("reduced_tol_ktratio"),
             max_iter: v["max_iter"].as_u64().unwrap() as u32,
+            infbound: v["infbound"].as_f64().unwrap_or(1e20),
             time_limit: v["time_limit"].as_f64().unwrap_or(f64::INFINITY),
         }
     }
@@ -368,7 +376,9 @@ impl Problem {
 pub fn keep_rows(p: &Problem) -> Vec<bool> {
     let mut keep = vec![true; p.m()];
     if !p.settings.presolve { return keep; }
-    let thr = (1.0 - f64::EPSILON * 10.0) * clarabel::get_infinity();
+    // the MODEL of the presolver (make_reduction_map): strictly greater than the slightly contracted
+    // bound, sign-sensitive — never what the implementation reports
+    let thr = (1.0 - f64::EPSILON * 10.0) * p.settings.infbound;
     let mut idx = 0;
     for c in &p.cones {
         let d = c.dim();
@@ -644,7 +654,7 @@ pub fn add_inf_bounds(rng: &mut Rng, p: &mut Problem, k: usize) {
     let mut d = p.A.dense();
     d.extend(extra);
     p.A = SpMat::from_dense(&d, m + k, n);
-    let big = clarabel::get_infinity();
+    let big = p.settings.infbound;
     // a bound above the solver's infinity only where the row is certain to be dropped (presolve on):
     // on a kept row the solver caps b at its infinity, i.e. solves other data than the user's
     let over = p.settings.presolve;
@@ -758,6 +768,8 @@ pub struct Outcome {
     pub prev_gap_abs: f64,
     pub prev_gap_rel: f64,
     pub presolver_keep: Option<Vec<bool>>,
+    /// statuses of the earlier solves on the same solver object (update sequences)
+    pub history: Vec<String>,
     pub internal_m: usize,
     pub internal_n: usize,
 }
@@ -798,7 +810,9 @@ pub fn run_here(p: &Problem) -> Outcome {
     let Am = p.A.to_csc();
     let cones: Vec<SupportedConeT<f64>> = p.cones.iter().map(|c| c.to_clarabel()).collect();
     clarabel::verif_hooks::term::reset();
+    clarabel::set_infinity(p.settings.infbound);
     let mut solver = DefaultSolver::new(&Pm, &p.q, &Am, &p.b, &cones, p.settings.to_clarabel());
+    clarabel::default_infinity();
     solver.solve();
     collect(&solver)
 }
@@ -826,6 +840,7 @@ pub fn collect(solver: &DefaultSolver<f64>) -> Outcome {
         rollbacks: clarabel::verif_hooks::term::rollbacks(),
         dot_qx: dqx, dot_bz: dbz, dot_sz: dsz, dot_xpx: dxpx,
         presolver_keep: clarabel::verif_hooks::presolver_keep(&solver.data),
+        history: vec![],
         internal_m: solver.data.m, internal_n: solver.data.n,
     }
 }
@@ -971,25 +986,44 @@ pub fn gen_update_case(rng: &mut Rng, idx: usize, max_size: usize) -> (Problem, 
 }
 /// First solve of `p`, then the in-place updates of `u`, then a re-solve; returns the RE-SOLVE's
 /// outcome (`run = "update-refused"` if an update call returned an error).
-pub fn run_update(p: &Problem, u: &DataUpdate, watchdog_s: f64) -> Outcome {
-    let (p, u) = (p.clone(), u.clone());
+pub fn run_update(p: &Problem, u: &DataUpdate, watchdog_s: f64) -> Outcome { run_updates(p, std::slice::from_ref(u), watchdog_s) }
+
+/// The user's data after a whole sequence of updates.
+pub fn apply_updates(p: &Problem, us: &[DataUpdate]) -> Problem {
+    let mut f = p.clone();
+    for u in us { let l = f.label.clone(); f = apply_update(&f, u); f.label = format!("{} ; update_{}", l, u.kinds()); }
+    f.label = format!("{} ; re-solve (same solver object, {} updates)", f.label, us.len());
+    f
+}
+/// One solver object: solve, then for every update of `us` in turn: update_P/q/A/b, solve().  Returns the
+/// LAST solve's outcome; `history` holds the statuses of all earlier solves.
+pub fn run_updates(p: &Problem, us: &[DataUpdate], watchdog_s: f64) -> Outcome {
+    let (p, us) = (p.clone(), us.to_vec());
     let (tx, rx) = std::sync::mpsc::channel();
     std::thread::Builder::new().stack_size(64 << 20).spawn(move || {
         let r = guarded(|| {
             let cones: Vec<SupportedConeT<f64>> = p.cones.iter().map(|c| c.to_clarabel()).collect();
             clarabel::verif_hooks::term::reset();
+            clarabel::set_infinity(p.settings.infbound);
             let mut solver = DefaultSolver::new(&p.P.to_csc(), &p.q, &p.A.to_csc(), &p.b, &cones, p.settings.to_clarabel());
+            clarabel::default_infinity();
             solver.solve();
-            let mut ok = true;
-            if let Some(v) = &u.p_vals { ok &= solver.update_P(v).is_ok(); }
-            if let Some(v) = &u.q { ok &= solver.update_q(v).is_ok(); }
-            if let Some(v) = &u.a_vals { ok &= solver.update_A(v).is_ok(); }
-            if let Some(v) = &u.b { ok &= solver.update_b(v).is_ok(); }
-            if !ok { return Outcome { run: "update-refused".into(), ..Default::default() }; }
-            if let Some(k) = u.max_iter { solver.settings.max_iter = k; }
-            clarabel::verif_hooks::term::reset();
-            solver.solve();
-            collect(&solver)
+            let mut history = vec![format!("{:?}", solver.solution.status)];
+            for (k, u) in us.iter().enumerate() {
+                let mut ok = true;
+                if let Some(v) = &u.p_vals { ok &= solver.update_P(v).is_ok(); }
+                if let Some(v) = &u.q { ok &= solver.update_q(v).is_ok(); }
+                if let Some(v) = &u.a_vals { ok &= solver.update_A(v).is_ok(); }
+                if let Some(v) = &u.b { ok &= solver.update_b(v).is_ok(); }
+                if !ok { return Outcome { run: "update-refused".into(), ..Default::default() }; }
+                if let Some(k) = u.max_iter { solver.settings.max_iter = k; }
+                clarabel::verif_hooks::term::reset();
+                solver.solve();
+                if k + 1 < us.len() { history.push(format!("{:?}", solver.solution.status)); }
+            }
+            let mut o = collect(&solver);
+            o.history = history;
+            o
         });
         let _ = tx.send(r);
     }).expect("spawn");
@@ -998,4 +1032,116 @@ pub fn run_update(p: &Problem, u: &DataUpdate, watchdog_s: f64) -> Outcome {
         Ok(None) => Outcome { run: "panic".into(), ..Default::default() },
         Err(_) => Outcome { run: "hang".into(), ..Default::default() },
     }
+}
+
+/// Feasibility transitions on ONE solver object (presolve off).  Mode (idx % 7):
+///  0 feasible -> primal infeasible via update_b        1 feasible -> dual infeasible via update_q
+///  2 feasible -> primal infeasible via update_A + update_b
+///  3 primal infeasible -> feasible -> primal infeasible (update_b twice)
+///  4 dual infeasible -> feasible -> dual infeasible (update_q twice)
+///  5 primal infeasible -> feasible (update_b)           6 dual infeasible -> feasible (update_q)
+/// The infeasible data come from the planted-certificate generators, the feasible right-hand side /
+/// cost from a planted primal (dual) feasible point of the same A (A, P).
+pub fn gen_transition_case(rng: &mut Rng, idx: usize, max_size: usize) -> (Problem, Vec<DataUpdate>) {
+    let all: [&str; 7] = ["zero", "nn", "soc", "exp", "pow", "genpow", "psd"];
+    let sym: [&str; 3] = ["zero", "nn", "soc"];
+    let n = 1 + rng.below((max_size / 5).max(2));
+    let target_m = 1 + rng.below(2 * n + 2);
+    let kinds: &[&str] = if rng.chance(2, 3) { &sym } else { &all };
+    let cones = sample_cones(rng, target_m, kinds);
+    let mode = idx % 7;
+    let primal = matches!(mode, 0 | 2 | 3 | 5);
+    let mut inf = if primal { gen_primal_infeasible(rng, n, cones) } else { gen_dual_infeasible(rng, n, cones) };
+    inf.settings = sample_settings(rng);
+    inf.settings.presolve = false;
+    inf.p_full = false;
+    let (n, m) = (inf.n(), inf.m());
+    // a feasible counterpart of the vector the certificate lives on
+    let x0: Vec<f64> = (0..n).map(|_| small_int(rng, -2, 2)).collect();
+    let b_feas = |rng: &mut Rng, a: &SpMat, cones: &[ConeK]| -> Vec<f64> { let s0 = concat_interior(rng, cones, false); let ax = a.mul_vec(&x0); (0..m).map(|i| ax[i] + s0[i]).collect() };
+    let q_feas = |rng: &mut Rng, p: &Problem| -> Vec<f64> { let z1 = concat_interior(rng, &p.cones, true); let px = p.P.sym_mul_vec(&x0); let t = p.A.tmul_vec(&z1); (0..n).map(|j| -(px[j] + t[j])).collect() };
+    let upd_b = |b: Vec<f64>| DataUpdate { b: Some(b), ..Default::default() };
+    let upd_q = |q: Vec<f64>| DataUpdate { q: Some(q), ..Default::default() };
+    let (base, us) = match mode {
+        0 => { let mut base = inf.clone(); base.b = b_feas(rng, &inf.A, &inf.cones); (base, vec![upd_b(inf.b.clone())]) }
+        1 => { let mut base = inf.clone(); base.q = q_feas(rng, &inf); (base, vec![upd_q(inf.q.clone())]) }
+        2 => {
+            // base matrix: the certificate is broken by doubling one row that carries nonzeros (same pattern)
+            let mut base = inf.clone();
+            let k = inf.A.ents.get(rng.below(inf.A.ents.len().max(1))).map(|e| e.0).unwrap_or(0);
+            for e in base.A.ents.iter_mut() { if e.0 == k { e.2 *= 2.0; } }
+            base.b = b_feas(rng, &base.A, &inf.cones);
+            (base, vec![DataUpdate { a_vals: Some(inf.A.ents.iter().map(|e| e.2).collect()), b: Some(inf.b.clone()), ..Default::default() }])
+        }
+        3 => { let bf = b_feas(rng, &inf.A, &inf.cones); let b2: Vec<f64> = inf.b.iter().map(|v| v * 2.0).collect(); (inf.clone(), vec![upd_b(bf), upd_b(b2)]) }
+        4 => { let qf = q_feas(rng, &inf); let q2: Vec<f64> = inf.q.iter().map(|v| v * 2.0).collect(); (inf.clone(), vec![upd_q(qf), upd_q(q2)]) }
+        5 => { let bf = b_feas(rng, &inf.A, &inf.cones); (inf.clone(), vec![upd_b(bf)]) }
+        _ => { let qf = q_feas(rng, &inf); (inf.clone(), vec![upd_q(qf)]) }
+    };
+    let mut base = base;
+    base.class = format!("transition{}", mode);
+    base.label = format!("transition mode {} from {}", mode, inf.label);
+    (base, us)
+}
+
+// ------------------------------------------------------------------------------------------
+// right-hand sides of both signs around the infinity bound (presolve on)
+// ------------------------------------------------------------------------------------------
+/// Planted feasible problem, presolve ON, whose nonnegative rows carry right-hand sides
+/// +-B, +-B/10, +-10B, +-B(1 +- 2^-20) for the bound B in force: the default 1e20 (idx even) or a
+/// bound lowered with set_infinity to 1e3..1e6 (idx odd).  Positive specials are ordinary
+/// "infinite bound" rows over the existing variables (dropped iff b > (1 - 10 eps) B); every negative
+/// special `x_new + s_i = -v, s_i >= 0` gets its own new variable with a unit quadratic cost, so the
+/// row is a very tight constraint that must be kept (x_new <= -v, optimum x_new = -v) while the
+/// problem without the row is still bounded (x_new = 0).
+pub fn gen_infbound_case(rng: &mut Rng, idx: usize) -> Problem {
+    let kinds: [&str; 4] = ["zero", "nn", "soc", "exp"];
+    let n0 = 1 + rng.below(4);
+    let tm = 1 + rng.below(2 * n0 + 1);
+    let cones = sample_cones(rng, tm, &kinds);
+    let mut p = gen_feasible(rng, n0, cones);
+    p.settings = sample_settings(rng);
+    p.settings.presolve = true;
+    p.p_full = false;
+    let bound = if idx % 2 == 0 { 1e20 } else { *rng.pick(&[1e3, 1e4, 1e5, 1e6]) };
+    p.settings.infbound = bound;
+    let eps20 = 2f64.powi(-20);
+    let mags = [1.0, 0.1, 10.0, 1.0 + eps20, 1.0 - eps20];
+    let nspec = 2 + rng.below(3);
+    let mut specials: Vec<f64> = vec![];
+    // always at least one negative and one positive special
+    for k in 0..nspec {
+        let sign = if k == 0 { -1.0 } else if k == 1 { 1.0 } else if rng.chance(1, 2) { 1.0 } else { -1.0 };
+        specials.push(sign * bound * *rng.pick(&mags));
+    }
+    let nneg = specials.iter().filter(|v| **v < 0.0).count();
+    let (m0, n_new) = (p.m(), n0 + nneg);
+    let mut a = p.A.dense();
+    for row in a.iter_mut() { row.resize(n_new, 0.0); }
+    let mut pd = p.P.dense();
+    for row in pd.iter_mut() { row.resize(n_new, 0.0); }
+    let mut next = n0;
+    for v in specials.iter() {
+        let mut row = vec![0.0; n_new];
+        if *v < 0.0 {
+            row[next] = 1.0;
+            pd.push({ let mut r = vec![0.0; n_new]; r[next] = 1.0; r });
+            p.q.push(0.0);
+            next += 1;
+        } else {
+            for j in 0..n0 { if rng.chance(1, 3) { row[j] = small_int(rng, -2, 2); } }
+        }
+        a.push(row);
+        p.b.push(*v);
+    }
+    p.A = SpMat::from_dense(&a, m0 + specials.len(), n_new);
+    p.P = SpMat::from_dense(&pd, n_new, n_new);
+    // the special rows as one nonnegative cone, or merged into a trailing one
+    match p.cones.last_mut() {
+        Some(ConeK::NN(d)) if rng.chance(1, 2) => { *d += specials.len(); }
+        _ => { p.cones.push(ConeK::NN(specials.len())); }
+    }
+    p.label = format!("planted-feasible + rhs around the bound {:e}: {:?}", bound, specials);
+    p.class = "infbound".into();
+    p
 }
